@@ -309,4 +309,157 @@ example : fromReport ⟨(true, 2), (true, 3), (true, 4), 0, none, none⟩ = .err
 example : fromReport ⟨(true, 2 ^ 191), (true, 1), (true, 2 ^ 191), 0, none, none⟩ = .error .divisorOverflow := by decide
 example : lastUpdateDiff 1000 999999999999 = .ok (1, true) := by decide
 
+/-! ### Non-vacuity added by the audit (B6): the theorems instantiated on concrete inputs -/
+/-- a well-formed 164-byte payload: context `0x22…`, offset word 128, length word 4, blob `0a0b0c0d` -/
+local notation "exPayload" =>
+  (List.replicate 96 34 ++ (List.replicate 24 0 ++ [0, 0, 0, 0, 0, 0, 0, 128]) ++
+    (List.replicate 24 0 ++ [0, 0, 0, 0, 0, 0, 0, 4]) ++ [10, 11, 12, 13] : List Nat)
+-- the hypothesis of `decode_slice_spec` / `decode_abi_slice`, on `decodeFullReport` itself
+example : decodeFullReport exPayload =
+    .ok ([List.replicate 32 34, List.replicate 32 34, List.replicate 32 34], [10, 11, 12, 13]) := by
+  rw [decode_eq]; decide +kernel
+-- `decode_abi_slice` instantiated: the blob is the ABI slice `payload[160 .. 164]`
+example : abiOffset exPayload + 32 + abiLength exPayload (abiOffset exPayload) ≤ (exPayload).length ∧
+    [10, 11, 12, 13] = ((exPayload).drop (abiOffset exPayload + 32)).take (abiLength exPayload (abiOffset exPayload)) :=
+  decode_abi_slice (p := exPayload) (ctx := [List.replicate 32 34, List.replicate 32 34, List.replicate 32 34])
+    (blob := [10, 11, 12, 13]) (by rw [decode_eq]; decide +kernel)
+example : abiOffset exPayload = 128 ∧ abiLength exPayload 128 = 4 := by decide +kernel
+-- `decode_slice_spec` instantiated (blob length and the bounds)
+example : ([10, 11, 12, 13] : List Nat).length = be (((exPayload).drop (be (((exPayload).drop 120).take 8) + 24)).take 8) :=
+  (decode_slice_spec (p := exPayload) (ctx := [List.replicate 32 34, List.replicate 32 34, List.replicate 32 34])
+    (blob := [10, 11, 12, 13]) (by rw [decode_eq]; decide +kernel)).2.2.2.2.1
+-- `decode_ok_of_bounds`: all six hypotheses hold together on the same payload
+example : ∃ ctx blob, decodeFullReport exPayload = .ok (ctx, blob) :=
+  decode_ok_of_bounds exPayload (by decide +kernel) (by decide +kernel) (by decide +kernel) (by decide +kernel)
+    (by decide +kernel) (by decide +kernel)
+-- `decode_total` is about every error too: short input and a crafted huge offset stay in the error type
+example : decodeFullReport [1, 2, 3] = .error .tooShort := by rw [decode_eq]; decide +kernel
+example : decodeFullReport (List.replicate 120 0 ++ List.replicate 8 255) = .error .offsetOverflow := by
+  rw [decode_eq]; decide +kernel
+-- `decodeHead_spec`: short, supported (v3, v11) and unsupported (v4) heads
+example : decodeHead [0, 3] = some .short ∧
+    decodeHead ([0, 3] ++ List.replicate 30 7) = some (.supported 3) ∧
+    decodeHead ([0, 11] ++ List.replicate 30 7) = some (.supported 11) ∧
+    decodeHead ([0, 4] ++ List.replicate 30 7) = some (.unsupported 4) ∧
+    decodeHead ([1, 3] ++ List.replicate 30 7) = some (.unsupported 259) := by decide +kernel
+example : decodeHead [0, 3] = some .short := (decodeHead_spec [0, 3]).1 (by decide)
+-- `status_and_number_tables`: signed conversion on a negative number and at the 192-bit edge
+example : bigintToSigned (-5) = some (false, 5) ∧ bigintToSigned (2 ^ 192 - 1) = some (true, 2 ^ 192 - 1) ∧
+    bigintToSigned (-(2 ^ 192)) = none := by decide
+example : bigintToSigned (-5) = some (decide ((0 : Int) ≤ -5), (-5 : Int).natAbs) :=
+  status_and_number_tables.2.2.1 (-5) (by decide)
+-- `fromReport_rejects_negative` / `fromReport_rejects_misordered` (each disjunct of the hypotheses)
+example : fromReport ⟨(true, 3), (false, 1), (true, 4), 0, none, none⟩ = .error .negBid ∧
+    fromReport ⟨(true, 3), (true, 1), (false, 4), 0, none, none⟩ = .error .negAsk ∧
+    fromReport ⟨(true, 5), (true, 1), (true, 4), 0, none, none⟩ = .error .askLtPrice := by decide
+example : fromReport ⟨(true, 5), (true, 1), (true, 4), 0, none, none⟩ ≠ .ok ⟨18, 0, 5, 1, 4, 0, 1, 0⟩ :=
+  fromReport_rejects_misordered ⟨(true, 5), (true, 1), (true, 4), 0, none, none⟩ (Or.inl (by decide)) _
+-- `fromReport_ok_spec` instantiated on the scaled report (`dd = 1`): same divisor for all three
+example : (2 ^ 130 / 10 : Nat) = 2 ^ 130 / 10 ^ PriceDecimal.findDivisorDecimals (2 ^ 131) ∧
+    (2 ^ 129 / 10 : Nat) ≤ 2 ^ 130 / 10 :=
+  have h := fromReport_ok_spec (r := ⟨(true, 2 ^ 130), (true, 2 ^ 129), (true, 2 ^ 131), 5, none, none⟩)
+    (f := ⟨17, 5, 2 ^ 130 / 10, 2 ^ 129 / 10, 2 ^ 131 / 10, 0, 1, 0⟩) (by decide)
+  ⟨h.2.2.2.2.2.2.2.1, h.2.2.2.2.2.2.2.2.2.2.1⟩
+-- `fromReport_no_panic`: a 192-bit ask (here the divisor check rejects instead)
+example : fromReport ⟨(true, 2 ^ 191), (true, 1), (true, 2 ^ 191), 0, none, none⟩ ≠ .error .panic :=
+  fromReport_no_panic _ (by decide)
+-- `lastUpdateDiff_spec`: last update behind (rounded up), exactly equal, and < 1 s ahead
+example : lastUpdateDiff 1000 999999999999 = .ok (1, true) ∧ lastUpdateDiff 1000 997500000000 = .ok (3, true) ∧
+    lastUpdateDiff 1000 1000000000000 = .ok (0, true) ∧ lastUpdateDiff 1000 1000999999999 = .ok (0, true) := by
+  decide
+example : 1000 * 1000000000 - 997500000000 ≤ 3 * 1000000000 ∧
+    3 * 1000000000 < 1000 * 1000000000 - 997500000000 + 1000000000 :=
+  (lastUpdateDiff_spec (obs := 1000) (lu := 997500000000) (d := 3) (o := true) (by decide) (by decide)).2.2.1
+    (by decide)
+example : 1000999999999 - 1000 * 1000000000 < 1000000000 ∧ (0 : Nat) = 0 :=
+  (lastUpdateDiff_spec (obs := 1000) (lu := 1000999999999) (d := 0) (o := true) (by decide) (by decide)).2.2.2
+    (by decide)
+-- `lastUpdateDiff_ahead`: one full second ahead is rejected; the largest u32 timestamp does not overflow
+example : lastUpdateDiff 1000 1001000000000 = .error .lastUpdateAhead :=
+  lastUpdateDiff_ahead (by decide) (by decide)
+example : lastUpdateDiff (2 ^ 32 - 1) 0 = .ok (2 ^ 32 - 1, true) := by decide
+-- model only (outside u32): the "too old ⇒ closed" and u64-overflow branches that `lastUpdateDiff_spec` excludes
+example : lastUpdateDiff (2 ^ 32) 0 = .ok (4294967295, false) ∧
+    lastUpdateDiff (2 ^ 35) 0 = .error .obsOverflow := by decide
+
+/-- AUDIT (B6), new — the part of the conversion `fromReport_ok_spec` is silent about: the stored
+**last-update difference and the flag byte**. Without a last-update field only the open flag is
+set (`flags = 1`) and the `getD 0` default is what `diff` holds; with one, `diff`/open flag are
+exactly those of `lastUpdateDiff` and both tracking flags (enabled, seconds) are set. -/
+theorem fromReport_ok_tracking {r : Rep} {f : Feed} (h : fromReport r = .ok f) :
+    (r.lastUpdateNs = none → f.flags = 1 ∧ f.diff = 0) ∧
+    (∀ lu, r.lastUpdateNs = some lu →
+      ∃ d o, lastUpdateDiff r.obsTs lu = .ok (d, o) ∧ f.diff = d ∧ f.flags = (if o then 1 else 0) + 6) := by
+  have key : ∃ d? o, ludOf r = .ok (d?, o) ∧ f.diff = d?.getD 0 ∧
+      f.flags = (if o then 1 else 0) + (if d?.isSome then 6 else 0) := by
+    unfold fromReport at h
+    split at h
+    · cases h
+    split at h
+    · cases h
+    split at h
+    · cases h
+    split at h
+    · cases h
+    split at h
+    · cases h
+    split at h
+    · cases h
+    cases hl : ludOf r with
+    | error e => rw [hl] at h; simp only [mkFeed] at h; cases h
+    | ok v =>
+      obtain ⟨d?, isOpen⟩ := v
+      rw [hl] at h
+      cases hp : toU128 (r.price.2 / 10 ^ PriceDecimal.findDivisorDecimals r.ask.2) with
+      | none => rw [hp] at h; simp only [mkFeed] at h; cases h
+      | some pp =>
+        cases hb : toU128 (r.bid.2 / 10 ^ PriceDecimal.findDivisorDecimals r.ask.2) with
+        | none => rw [hp, hb] at h; simp only [mkFeed] at h; cases h
+        | some bb =>
+          cases ha : toU128 (r.ask.2 / 10 ^ PriceDecimal.findDivisorDecimals r.ask.2) with
+          | none => rw [hp, hb, ha] at h; simp only [mkFeed] at h; cases h
+          | some aa =>
+            rw [hp, hb, ha] at h; simp only [mkFeed] at h; cases h
+            exact ⟨d?, isOpen, rfl, rfl, rfl⟩
+  obtain ⟨d?, o, hl, hd, hf⟩ := key
+  unfold ludOf at hl
+  constructor
+  · intro hn
+    rw [hn] at hl; simp only at hl
+    cases hl
+    simp [hd, hf]
+  · intro lu hs
+    rw [hs] at hl; simp only at hl
+    cases hld : lastUpdateDiff r.obsTs lu with
+    | error e => rw [hld] at hl; simp only [liftLud] at hl; cases hl
+    | ok v =>
+      obtain ⟨d, o'⟩ := v
+      rw [hld] at hl; simp only [liftLud] at hl
+      cases hl
+      exact ⟨_, _, rfl, by simpa using hd, by simpa using hf⟩
+
+/-- AUDIT (B6): for a `u32` observation timestamp the flag byte is `1` (untracked) or `7` (open +
+tracking in seconds) — a converted Chainlink report always carries the open flag, and the stored
+difference fits `u32`. -/
+theorem fromReport_flags_u32 {r : Rep} {f : Feed} (h : fromReport r = .ok f) (hobs : r.obsTs < 2 ^ 32) :
+    (r.lastUpdateNs = none ∧ f.flags = 1 ∧ f.diff = 0) ∨
+    (∃ lu, r.lastUpdateNs = some lu ∧ f.flags = 7 ∧ f.diff < 2 ^ 32) := by
+  obtain ⟨h1, h2⟩ := fromReport_ok_tracking h
+  cases hl : r.lastUpdateNs with
+  | none => exact Or.inl ⟨rfl, h1 hl⟩
+  | some lu =>
+    obtain ⟨d, o, hd, e1, e2⟩ := h2 lu hl
+    obtain ⟨ho, hlt, _, _⟩ := lastUpdateDiff_spec hobs hd
+    subst ho
+    exact Or.inr ⟨lu, rfl, by simpa using e2, by omega⟩
+example : (7 : Nat) = 7 ∧ (3 : Nat) < 2 ^ 32 := by
+  have h := fromReport_flags_u32
+    (r := ⟨(true, 50000 * 10 ^ 18), (true, 49900 * 10 ^ 18), (true, 50100 * 10 ^ 18), 1000, some 997500000000, some 2⟩)
+    (f := ⟨18, 1000, 50000 * 10 ^ 18, 49900 * 10 ^ 18, 50100 * 10 ^ 18, 3, 7, 3⟩) (by decide) (by decide)
+  rcases h with ⟨hn, _⟩ | ⟨lu, _, h7, hlt⟩
+  · cases hn
+  · exact ⟨h7, hlt⟩
+example : fromReport ⟨(true, 50000 * 10 ^ 18), (true, 49900 * 10 ^ 18), (true, 50100 * 10 ^ 18), 1000,
+    some 1001000000000, some 2⟩ = .error .lastUpdateAhead := by decide
+
 end Gmx.C28
